@@ -137,6 +137,20 @@ def _wall_for(rng, O, viewer, tgt_c, tgt_radius, role, point_like):
         extra = dw * math.tan(math.asin(min(0.95, tgt_radius / max(dist, 1e-9)))) if not point_like else 0.0
         shift = (math.cos(a) * e1 + math.sin(a) * e2) * (half * 1.5 + extra + float(rng.uniform(0.3, 3.0)))
         centre = centre + shift
+    if role == "tall_cover":
+        # a covering wall that is very long along one of its own axes, with its centre displaced along that
+        # axis by more than the viewing distance: the body still crosses every line of sight to the target
+        # although the centre is far away from the camera (and, for the z axis, far above/below it)
+        yaw = math.atan2(-g[0], g[1])
+        pitch = math.asin(max(-1, min(1, g[2])))
+        roll = float(rng.uniform(-math.pi, math.pi))
+        R = O.rot(yaw, pitch, roll)
+        axis = int(rng.choice([0, 2]))
+        s = float(viewer.d) * float(rng.uniform(1.1, 2.5)) * (1 if rng.random() < 0.5 else -1)
+        centre = centre + R[:, axis] * s
+        dims = [2 * half, thick, 2 * half]
+        dims[axis] = 2 * (abs(s) + half)
+        return {"pos": _r(centre), "ypr": [float(yaw), float(pitch), roll], "dims": dims, "occluding": True, "role": role}
     tilt = 0.25 if role in ("cover", "nonocc") else 0.5
     yaw = math.atan2(-g[0], g[1]) + float(rng.uniform(-tilt, tilt)) * (rng.random() < 0.6)
     pitch = math.asin(max(-1, min(1, g[2]))) + float(rng.uniform(-tilt, tilt)) * (rng.random() < 0.6)
@@ -322,12 +336,12 @@ def gen_viewer(rng, O):
 
     # ---- occluders
     occ = []
-    roles_obj = ["cover", "partial", "beyond", "nonocc", "miss"]
+    roles_obj = ["cover", "partial", "beyond", "nonocc", "miss", "tall_cover"]
     for o in objs:
         if o["cat"] in ("enclose",) or rng.random() < 0.25:
             continue
         for _ in range(int(rng.choice([1, 2], p=[0.7, 0.3]))):
-            role = str(rng.choice(roles_obj, p=[0.4, 0.25, 0.12, 0.13, 0.1]))
+            role = str(rng.choice(roles_obj, p=[0.32, 0.22, 0.1, 0.11, 0.1, 0.15]))
             w = _wall_for(rng, O, ov, o["pos"], float(np.linalg.norm(o["dims"]) / 2), role, False)
             if w is not None and len(occ) < 4:
                 occ.append(w)
@@ -337,7 +351,7 @@ def gen_viewer(rng, O):
         if not inpts or len(occ) >= 4:
             break
         p = inpts[int(rng.integers(len(inpts)))]
-        role = str(rng.choice(["cover", "miss", "beyond", "nonocc"], p=[0.5, 0.2, 0.15, 0.15]))
+        role = str(rng.choice(["cover", "miss", "beyond", "nonocc", "tall_cover"], p=[0.38, 0.2, 0.13, 0.14, 0.15]))
         w = _wall_for(rng, O, ov, p["p"], 0.0, role, True)
         if w is not None:
             occ.append(w)
